@@ -14,6 +14,7 @@ import (
 	"go/token"
 	"os"
 	"path/filepath"
+	"reflect"
 	"sort"
 	"strings"
 )
@@ -49,7 +50,7 @@ func readText(rel string) (string, bool) {
 
 // src prints a node on one line with normalised whitespace.
 func src(n ast.Node) string {
-	if n == nil {
+	if n == nil || (reflect.ValueOf(n).Kind() == reflect.Ptr && reflect.ValueOf(n).IsNil()) {
 		return ""
 	}
 	var b bytes.Buffer
@@ -182,7 +183,7 @@ func fileConsts(rel string) constEnv {
 // allNodes returns every node of the subtree in source order.
 func allNodes(root ast.Node) []ast.Node {
 	var out []ast.Node
-	if root == nil {
+	if root == nil || (reflect.ValueOf(root).Kind() == reflect.Ptr && reflect.ValueOf(root).IsNil()) {
 		return out
 	}
 	ast.Inspect(root, func(n ast.Node) bool {
